@@ -185,9 +185,16 @@ Theorem vfs_out_feature_bits s opts :
 Proof.
   rewrite WB_val, KP_val, DAX_val, AOT_val, !has_pow2, !vfs_negotiate_out_bit by reflexivity.
   rewrite vfs_negotiate_no_open.
-  destruct (v_no_open s), (v_no_opendir s), (v_no_writeback s), (v_killpriv_v2 s); cbn [negb andb N.eqb Pos.eqb];
-    rewrite ?andb_true_r, ?andb_false_r; repeat split; intro H;
-    try discriminate; try (apply andb_prop in H; apply H).
+  split; [|split; [|split]].
+  - destruct (v_no_open s), (v_no_opendir s), (v_no_writeback s), (v_killpriv_v2 s),
+      (N.testbit (v_out_opts s) 16), (N.testbit opts 16); cbn; intro H; try discriminate; split; reflexivity.
+  - destruct (v_no_open s), (v_no_opendir s), (v_no_writeback s), (v_killpriv_v2 s),
+      (N.testbit (v_out_opts s) 28), (N.testbit opts 28); cbn; intro H; try discriminate; split; reflexivity.
+  - destruct (v_no_open s), (v_no_opendir s), (v_no_writeback s), (v_killpriv_v2 s),
+      (N.testbit (v_out_opts s) 33), (N.testbit opts 33); cbn; intro H; try discriminate; reflexivity.
+  - destruct (v_no_open s), (v_no_opendir s), (v_no_writeback s), (v_killpriv_v2 s),
+      (N.testbit (v_out_opts s) 3), (N.testbit opts 3), (has opts F_ZERO_MESSAGE_OPEN);
+      cbn; intro H; try discriminate; reflexivity.
 Qed.
 
 (* the VFS refuses a second INIT (until DESTROY) *)
@@ -261,7 +268,7 @@ Proof. destruct p; cbn; split; intro H; try discriminate; try reflexivity; intro
 
 (* the option bits a layer returns beyond DO_READDIRPLUS | READDIRPLUS_AUTO were offered and correspond
    to the switch it just turned on *)
-Lemma layer_opts_bits wb no nd kp dx :
+Lemma layer_opts_bits (wb no nd kp dx : bool) :
   let o := cond_or dx (cond_or kp (cond_or nd
             (if no then remove (N.lor (cond_or wb (N.lor F_DO_READDIRPLUS F_READDIRPLUS_AUTO) F_WRITEBACK_CACHE)
                                       F_ZERO_MESSAGE_OPEN) F_ATOMIC_O_TRUNC
@@ -304,7 +311,8 @@ Proof.
              (allowed c (c_killpriv_v2 c) && contains capable F_HANDLE_KILLPRIV_V2)
              (c_perfile_dax c && contains capable F_PERFILE_DAX)) as [E1 [E2 [E3 [E4 [E5 _]]]]].
   cbv zeta in E1, E2, E3, E4, E5. rewrite E1, E2, E3, E4, E5.
-  repeat split; intro A; apply andb_prop in A; apply A.
+  split; [|split; [|split; [|split]]]; intro A; apply andb_prop in A; try apply A.
+  split; apply A.
 Qed.
 
 (* ------------------------------------------------------------------ histories (INIT, DESTROY, INIT, ...) *)
@@ -346,7 +354,7 @@ Proof.
   destruct Hin as [Hin|[->|[]]]; [left; exact Hin|right; left; reflexivity].
 Qed.
 
-Lemma toggles_from_step init_fn :
+Lemma toggles_from_step (init_fn : lcfg -> toggles -> N -> N * toggles) :
   (forall c t capable, let t' := snd (init_fn c t capable) in
      (t_writeback t' = true -> t_writeback t = true \/ contains capable F_WRITEBACK_CACHE = true) /\
      (t_no_open t' = true -> t_no_open t = true \/ contains capable F_ZERO_MESSAGE_OPEN = true) /\
@@ -454,5 +462,5 @@ Theorem ovl_behaviour_partial c capable :
 Proof.
   destruct (ovl_init_fresh c capable) as [A [B [C [D E]]]].
   unfold ovl_behaviour. cbn [b_open_enosys b_opendir_enosys b_writeback_flags b_killpriv b_dax].
-  repeat split; try assumption.
+  repeat split; try assumption; try reflexivity. intro H; exact H.
 Qed.
